@@ -63,6 +63,52 @@ Proof.
   - now apply subset_str_incl.
 Qed.
 
+(* ---- whole drawings built from elements of the domain ---- *)
+Lemma all_obj_closed_true : forallb oclosed_dc diagram_classes = true.
+Proof. vm_cast_no_check (eq_refl true). Qed.
+Lemma rows_closed_true : forallb (row_local_closedP TBL) SYMBOLS = true.
+Proof. vm_cast_no_check (eq_refl true). Qed.
+
+Lemma obj_closed_d_eq dc kc sh ov : obj_closed_d (dfl_of dc kc) (mk_obj kc sh ov) = obj_closed TBL dc (mk_obj kc sh ov).
+Proof. unfold obj_closed, obj_closed_d, draw1, dfl_of. rewrite (packed_mk kc sh ov). reflexivity. Qed.
+
+Lemma obj_closed_domain : forall dc kc sh ov,
+  In dc diagram_classes -> In kc (kinds_classes dc) -> In sh (shapes_of (fst kc)) -> In ov override_menu ->
+  obj_closed TBL dc (mk_obj kc sh ov) = true.
+Proof.
+  intros dc kc sh ov Hdc Hkc Hsh Hov.
+  pose proof (proj1 (forallb_forall oclosed_dc diagram_classes) all_obj_closed_true dc Hdc) as H1.
+  pose proof (proj1 (forallb_forall (oclosed_kc dc) (kinds_classes dc)) H1 kc Hkc) as H2.
+  pose proof (proj1 (forallb_forall (oclosed_sh (dfl_of dc kc) kc) (shapes_of (fst kc))) H2 sh Hsh) as H3.
+  pose proof (proj1 (forallb_forall (fun ov => obj_closed_d (dfl_of dc kc) (mk_obj kc sh ov)) override_menu) H3 ov Hov) as H4.
+  rewrite <- obj_closed_d_eq. exact H4.
+Qed.
+
+(* an element of the domain: kind, class, shape and override as enumerated; id and context are free *)
+Definition in_domain (dc : str) (o : jobj) : Prop :=
+  exists kc sh ov, In kc (kinds_classes dc) /\ In sh (shapes_of (fst kc)) /\ In ov override_menu /\
+    o_kind o = fst kc /\ o_class o = snd kc /\ o_over o = ov /\
+    o_label o = fst (fst sh) /\ o_nfloat o = snd (fst sh) /\ o_nfeat o = snd sh.
+
+Lemma domain_objs_closed dc objs : In dc diagram_classes -> Forall (in_domain dc) objs ->
+  forallb (obj_closed TBL dc) objs = true.
+Proof.
+  intros Hdc H. induction H as [|o r Ho Hr IH]; [reflexivity|]. cbn [forallb]. rewrite IH, andb_true_r.
+  destruct Ho as [kc [sh [ov [Hkc [Hsh [Hov [E1 [E2 [E3 [E4 [E5 E6]]]]]]]]]]].
+  rewrite (obj_closed_ext TBL dc o (mk_obj kc sh ov)); [now apply obj_closed_domain|..]; assumption.
+Qed.
+
+Theorem diagram_refs_closed_lemma : forall dc els st,
+  In dc diagram_classes -> Forall (fun e => in_domain dc (e_obj e)) els ->
+  draw_all TBL dc (encode_contents els) = Some st -> incl (doc_refs TBL st) (doc_defs TBL st).
+Proof.
+  intros dc els st Hdc Hd H. apply (draw_all_closed TBL dc (encode_contents els) st).
+  - apply tab_closed_from_rows. exact rows_closed_true.
+  - apply domain_objs_closed; [assumption|]. unfold encode_contents. apply Forall_map.
+    apply Forall_forall. intros e He. apply filter_In in He as [He _]. rewrite Forall_forall in Hd. now apply Hd.
+  - exact H.
+Qed.
+
 (* the padding is one margin on every side *)
 Lemma padding_symmetric : PAD_POS_X = PAD_POS_Y /\ PAD_SIZE_X = (-2 * PAD_POS_X)%Z /\ PAD_SIZE_Y = (-2 * PAD_POS_Y)%Z
   /\ (PAD_POS_X = -10)%Z /\ INTROUND_ADD = (1#2).
